@@ -26,3 +26,50 @@ package rlp
 //@   ensures  [long-string-only-from-56-bytes] err == nil && 184 <= gTag && gTag < 192 ==> kind == String && size == gLen && size >= 56 && calls(readUint) == 1
 //@   ensures  [short-list-0-to-55] err == nil && 192 <= gTag && gTag < 248 ==> kind == List && size == gTag - 192 && calls(readUint) == 0
 //@   ensures  [long-list-only-from-56-bytes] err == nil && 248 <= gTag ==> kind == List && size == gLen && size >= 56 && calls(readUint) == 1
+
+// ---------------------------------------------------------------------------------------------
+// RLP item headers on the encoding side (C18): the number of header bytes RESERVED when a list is closed (listEnd) and the
+// number WRITTEN for it later (puthead, headsize) are the same function hdrSize of the payload size - 1 byte up to 55
+// bytes of payload, 1 + the minimal big-endian length of the size from 56 on. lenSize is the minimal number of bytes of
+// a non-zero 64-bit value (1 for zero), written out as comparisons.
+
+//@ define lenSize(i Int) Int = ite(i < 256, 1, ite(i < 65536, 2, ite(i < 16777216, 3, ite(i < 4294967296, 4, ite(i < 1099511627776, 5, ite(i < 281474976710656, 6, ite(i < 72057594037927936, 7, 8)))))))
+//@ define hdrSize(n Int) Int = ite(n < 56, 1, 1 + lenSize(n))
+
+// (shift loop: not examined; the value is the one putint uses, which is verified below)
+//@ func intsize
+//@   trusted
+//@   pure
+//@   ensures result == lenSize(i)
+
+//@ func putint
+//@   props C18
+//@   requires len(b) >= 8 && 0 <= i && i < 18446744073709551616
+//@   nosafety
+//@   ensures [minimal-big-endian-length] size == lenSize(i)
+
+//@ func headsize
+//@   props C18
+//@   requires 0 <= size && size < 18446744073709551616
+//@   assigns  nothing
+//@   ensures  [header-bytes-for-this-payload-size] result == hdrSize(size)
+
+//@ func puthead
+//@   props C18
+//@   requires len(buf) >= 9 && 0 <= size && size < 18446744073709551616
+//@   nosafety
+//@   ensures  [header-bytes-written-for-this-payload-size] result == hdrSize(size)
+
+//@ func (*encbuf).listEnd
+//@   props C18
+//@   requires w != nil && lh != nil
+//@   invariant-assumed len(w.str) + w.lhsize - lh.offset - lh.size >= 0 && len(w.str) + w.lhsize - lh.offset - lh.size < 9223372036854775808
+//@   assigns  lh.size, w.lhsize
+//@   ensures  [payload-size-recorded] lh.size == old(len(w.str) + w.lhsize - lh.offset - lh.size)
+//@   ensures  [header-bytes-reserved-equal-header-bytes-written] w.lhsize == old(w.lhsize) + hdrSize(lh.size)
+
+//@ func (*encbuf).size
+//@   props C18
+//@   requires w != nil
+//@   pure
+//@   ensures result == len(w.str) + w.lhsize
